@@ -47,6 +47,7 @@ type HistorySetup struct {
 	ViaApp        bool      `json:"end_block_via_module_manager,omitempty"`
 	KillOthers    bool      `json:"state_callback_kills_others,omitempty"`
 	Ghost         bool      `json:"ghost_module_context,omitempty"`
+	HostileHashes bool      `json:"structured_tx_hashes,omitempty"`
 	BigFunds      []FundRec `json:"big_funds,omitempty"` // amounts beyond int64, funded before the first snapshot
 	StartTimeNs   int64     `json:"start_time_unix_ns,omitempty"`
 }
@@ -214,6 +215,11 @@ func (r *Run) InstallModuleServiceQoS(pricing string, qos uint64) {
 	r.w.InstallModuleServiceQoS(pricing, qos)
 	r.hist.Setup.ModSvcPricing = pricing
 	r.hist.Setup.ModSvcQoS = qos
+}
+
+func (r *Run) SetHostileHashes(v bool) {
+	r.w.hostileHashes = v
+	r.hist.Setup.HostileHashes = v
 }
 
 func (r *Run) SetKillOthers(v bool) {
@@ -387,6 +393,7 @@ func Replay(a *App, h *History, mon *Mon) *Run {
 	r.SetStateCbKill(h.Setup.StateCbKill)
 	r.SetViaApp(h.Setup.ViaApp)
 	r.SetKillOthers(h.Setup.KillOthers)
+	r.SetHostileHashes(h.Setup.HostileHashes)
 	if h.Setup.StartTimeNs != 0 {
 		r.SetStartTime(time.Unix(0, h.Setup.StartTimeNs).UTC())
 	}
